@@ -134,7 +134,7 @@ func useDecls(t *rapid.T, local string, k int, u *int) []string {
 	for i := 0; i < n; i++ {
 		*u++
 		id := *u
-		kind := rapid.IntRange(0, 13).Draw(t, "use")
+		kind := rapid.IntRange(0, 15).Draw(t, "use")
 		if i == 0 && kind == 7 {
 			kind = 0 // the first use must really use the package (else: imported and not used)
 		}
@@ -169,6 +169,11 @@ func useDecls(t *rapid.T, local string, k int, u *int) []string {
 		case 11:
 			// the only reference sits in a type parameter list
 			out = append(out, fmt.Sprintf("type u%d[P %s, Q any] struct {\n\tp P\n\tq Q\n}", id, q(local, fmt.Sprintf("I%d", k))))
+		case 13:
+			// qualified identifiers as elements of multi-line argument lists and literals
+			out = append(out, fmt.Sprintf("func u%d() string {\n\treturn %s(\n\t\t%s,\n\t)\n}", id, q(local, fmt.Sprintf("G%d", k)), q(local, fmt.Sprintf("C%d", k))))
+		case 14:
+			out = append(out, fmt.Sprintf("var u%d = []interface{}{\n\t%s,\n\t%s,\n}", id, q(local, fmt.Sprintf("F%d", k)), q(local, fmt.Sprintf("V%d", k))))
 		case 12:
 			out = append(out, fmt.Sprintf("func u%d[P %s](p P) int {\n\treturn p.M()\n}", id, q(local, fmt.Sprintf("I%d", k))))
 		default:
